@@ -124,6 +124,9 @@ func genC07(t *rapid.T, tier string) (*World, any) {
 			where["quantifier-bound"] = true
 			return pick(t, []string{"[x-z]", "k", "(?:mn)"}, label+"-bb") + "{{{" + numName + "}}}" + pick(t, []string{"", "w"}, label+"-bt")
 		}
+		if chance(t, 8, label+"-quote") {
+			sb.WriteString("'") // a quote at the start of an entry is a character like any other
+		}
 		n := drawInt(t, 1, 3, label+"-n")
 		for i := 0; i < n; i++ {
 			sb.WriteString(ref(label+"-r", place))
